@@ -11,24 +11,97 @@ theorem C04_gen_obligations :
     display_withColumnRenamed ≠ .onSelf ∧ normalizeColsCopies = true ∧ normalizeColCopies = true ∧
     copyIsFresh = true ∧ groupKeepsCopy = true ∧ constructorsOwnTheirState = true ∧ addCtesOwnsExpression = true := by decide
 
+/-- the regenerated decisions about pending hints and `limit`: `_resolve_pending_hints` walks, empties and decorates its
+    working copy and returns it; `_hint` appends to the copy it returns; `limit` returns a copy built by a copying builder;
+    `alias` walks the copy's join hints -/
+theorem C04_hint_obligations :
+    resolveIterates = .onCopy ∧ resolveRemovesFrom = .onCopy ∧ resolveAttachesTo = .onCopy ∧ resolveReturns = .onCopy ∧
+    resolveJoinIterates = .onCopy ∧ hintAppendsTo = .onCopy ∧ limitResultOnCopy = true ∧ limitBuilderCopies = true ∧
+    aliasRepointsHintsOf = .onCopy := by decide
+
 theorem namer_target_ne (n : Namer) : n.target ≠ .onSelf := by
   cases n <;> simp [Namer.target] <;> decide
 
-/-- **frame**: one public call leaves every pre-existing DataFrame object and every Column handle exactly
-    as it was (hence everything it reports: columns, schema, SQL, rows). -/
+theorem setAt_self {α} (l : List α) (r : Nat) (o : α) (h : l[r]? = some o) : setAt l r o = l := by
+  unfold setAt
+  apply List.ext_getElem?
+  intro i
+  rw [List.getElem?_set]
+  split
+  · next hi =>
+    subst hi
+    split
+    · exact h.symm
+    · next hlt => simp [List.getElem?_eq_none (Nat.le_of_not_lt hlt)]
+  · rfl
+
+/-- **`_resolve_pending_hints` leaves the DataFrame it is called on as it is** (it walks, empties and decorates its copy) -/
+theorem C04_resolve_frame (o : Obj) : (resolveHints o).recv = o := by
+  unfold resolveHints
+  split
+  · rfl
+  · have h1 : resolveRemovesFrom = Target.onCopy := by decide
+    have h2 : resolveAttachesTo = Target.onCopy := by decide
+    simp [h1, h2]
+
+theorem take_append_one {α} (l : List α) (x : α) : (l ++ [x]).take l.length = l := by simp
+
+theorem execTransform_objs (h : Heap) (r : Nat) (s : Step) (namer : Namer) (names : List (Name × String)) (hs : List Nat) :
+    (execTransform h r s namer names hs).objs.take h.objs.length = h.objs ∧
+    (execTransform h r s namer names hs).handles = h.handles ∧
+    (execTransform h r s namer names hs).cells = h.cells ∧
+    (execTransform h r s namer names hs).engineCalls = h.engineCalls := by
+  unfold execTransform
+  cases hr : h.objs[r]? with
+  | none => simp
+  | some o =>
+    have hn : (namer.target = DisplayTarget.onSelf) = False := by simpa using namer_target_ne namer
+    have hc : (normalizeColsCopies && normalizeColCopies) = true := by decide
+    simp only [C04_resolve_frame, hn, hc, ite_self, decide_false, Bool.false_and, Bool.false_eq_true, ↓reduceIte]
+    rw [setAt_self _ _ _ hr]
+    simp
+
+/-- **frame**: one public call leaves every pre-existing DataFrame object — value state, `last_op`, display names, pending
+    hints, hint clauses — and every Column handle exactly as it was (hence everything it reports: columns, schema, SQL, rows). -/
 theorem C04_frame (h : Heap) (c : Call) :
     (exec h c).objs.take h.objs.length = h.objs ∧ (exec h c).handles.take h.handles.length = h.handles := by
   cases c with
   | transform r s namer names hs =>
+    have := execTransform_objs h r s namer names hs
     simp only [exec]
-    cases h.objs[r]? with
+    exact ⟨this.1, by rw [this.2.1]; simp⟩
+  | action r k via =>
+    cases via with
+    | direct =>
+      simp only [exec]
+      cases hr : h.objs[r]? with
+      | none => simp
+      | some o => simp [C04_resolve_frame, setAt_self _ _ _ hr]
+    | none => simp [exec]
+    | step s =>
+      have := execTransform_objs h r s .none [] []
+      simp only [exec]
+      refine ⟨?_, by rw [this.2.1]; simp⟩
+      rw [List.take_take, Nat.min_self]
+      exact this.1
+  | getItem r n => simp [exec]
+  | hint r m x =>
+    simp only [exec]
+    cases hr : h.objs[r]? with
     | none => simp
     | some o =>
-      have hn : (namer.target = .onSelf) = False := by simpa using namer_target_ne namer
-      have hc : (normalizeColsCopies && normalizeColCopies) = true := by decide
-      simp [hn, hc]
-  | action r k => simp [exec]
-  | getItem r n => simp [exec]
+      have ha : hintAppendsTo = Target.onCopy := by decide
+      simp [C04_resolve_frame, ha, setAt_self _ _ _ hr]
+  | render r =>
+    simp only [exec]
+    cases hr : h.objs[r]? with
+    | none => simp
+    | some o => simp [C04_resolve_frame, setAt_self _ _ _ hr]
+  | alias r =>
+    simp only [exec]
+    cases hr : h.objs[r]? with
+    | none => simp
+    | some o => simp [C04_resolve_frame, setAt_self _ _ _ hr]
 
 /-- an existing object, looked up by identity, is unchanged by a call -/
 theorem C04_frame_get (h : Heap) (c : Call) (i : Nat) (hi : i < h.objs.length) :
@@ -38,25 +111,13 @@ theorem C04_frame_get (h : Heap) (c : Call) (i : Nat) (hi : i < h.objs.length) :
   rw [List.getElem?_take] at h2
   simpa [hi] using h2
 
-/-- **history**: after any sequence of calls on any receivers, in any interleaving, every object that
-    existed before still reports what it reported. -/
-theorem C04_history (cs : List Call) : ∀ (h : Heap) (i : Nat), i < h.objs.length →
-    ((runCalls h cs).objs[i]?).map observe = (h.objs[i]?).map observe := by
-  induction cs with
-  | nil => intro h i _; rfl
-  | cons c cs ih =>
-    intro h i hi
-    simp only [runCalls, List.foldl_cons]
-    have hlen : h.objs.length ≤ (exec h c).objs.length := by
-      have := congrArg List.length (C04_frame h c).1
-      simp only [List.length_take] at this
-      omega
-    have := ih (exec h c) i (by omega)
-    simp only [runCalls] at this
-    rw [this, C04_frame_get h c i hi]
+theorem exec_objs_len (h : Heap) (c : Call) : h.objs.length ≤ (exec h c).objs.length := by
+  have := congrArg List.length (C04_frame h c).1
+  simp only [List.length_take] at this
+  omega
 
-/-- **history, object level**: not only what an existing object reports but the object itself — including the
-    `last_op` its next operation starts from and its open block — is what it was. -/
+/-- **history, object level**: after any sequence of calls on any receivers, in any interleaving, every object that existed
+    before is what it was — including the `last_op` its next operation starts from, its open block and its pending hints. -/
 theorem C04_history_obj (cs : List Call) : ∀ (h : Heap) (i : Nat), i < h.objs.length →
     (runCalls h cs).objs[i]? = h.objs[i]? := by
   induction cs with
@@ -64,19 +125,25 @@ theorem C04_history_obj (cs : List Call) : ∀ (h : Heap) (i : Nat), i < h.objs.
   | cons c cs ih =>
     intro h i hi
     simp only [runCalls, List.foldl_cons]
-    have hlen : h.objs.length ≤ (exec h c).objs.length := by
-      have := congrArg List.length (C04_frame h c).1
-      simp only [List.length_take] at this
-      omega
+    have hlen := exec_objs_len h c
     have := ih (exec h c) i (by omega)
     simp only [runCalls] at this
     rw [this, C04_frame_get h c i hi]
 
+/-- **history**: … and therefore reports what it reported: rows, column names as spelled, and the hint comments of its
+    statement (a hinted DataFrame names its hint every time, whatever was rendered, collected or derived in between). -/
+theorem C04_history (cs : List Call) (h : Heap) (i : Nat) (hi : i < h.objs.length) :
+    ((runCalls h cs).objs[i]?).map observe = (h.objs[i]?).map observe := by
+  rw [C04_history_obj cs h i hi]
+
 /-- the object a transformation creates is a function of the receiver object and the arguments alone -/
 theorem exec_transform_last (h : Heap) (r : Nat) (s : Step) (namer : Namer) (names : List (Name × String)) (hs : List Nat)
     (o : Obj) (ho : h.objs[r]? = some o) :
-    (exec h (.transform r s namer names hs)).objs.getLast? = some { df := o.df.apply s, display := updDisplay o.display names } := by
-  simp [exec, ho]
+    (exec h (.transform r s namer names hs)).objs.getLast? =
+      some { df := o.df.apply s, display := updDisplay o.display names,
+             pending := (transformHints o s).1, attached := (transformHints o s).2.1,
+             frozen := (transformHints o s).2.2, seq := o.seq } := by
+  simp [exec, execTransform, ho]
 
 /-- **purity over time**: the same call on the same receiver builds the same DataFrame again, whatever other calls
     (on any receivers, in any interleaving) happened in between -/
@@ -84,12 +151,11 @@ theorem C04_pure (h : Heap) (cs : List Call) (r : Nat) (s : Step) (namer : Namer
     (hr : r < h.objs.length) :
     (exec (runCalls (exec h (.transform r s namer names hs)) cs) (.transform r s namer names hs)).objs.getLast?
       = (exec h (.transform r s namer names hs)).objs.getLast? := by
-  obtain ⟨o, ho⟩ : ∃ o, h.objs[r]? = some o := ⟨h.objs[r], by simp [hr]⟩
+  obtain ⟨o, ho⟩ : ∃ o, h.objs[r]? = some o := ⟨h.objs[r], by simp⟩
   have h1 : (exec h (.transform r s namer names hs)).objs[r]? = some o := by
     rw [C04_frame_get h _ r hr]; exact ho
   have hlen : r < (exec h (.transform r s namer names hs)).objs.length := by
-    have := congrArg List.length (C04_frame h (.transform r s namer names hs)).1
-    simp only [List.length_take] at this
+    have := exec_objs_len h (.transform r s namer names hs)
     omega
   have h2 : (runCalls (exec h (.transform r s namer names hs)) cs).objs[r]? = some o := by
     rw [C04_history_obj cs _ r hlen]; exact h1
@@ -115,12 +181,15 @@ theorem C04_handles (cs : List Call) : ∀ (h : Heap) (i : Nat), i < h.handles.l
     rw [List.getElem?_take] at h2
     simpa [hi] using h2
 
-/-- **lazy**: transformations and handle creation send nothing to the engine -/
-theorem C04_lazy (h : Heap) (c : Call) (hc : ∀ r k, c ≠ .action r k) : (exec h c).engineCalls = h.engineCalls := by
+/-- **lazy**: transformations, handle creation, hints, aliasing and rendering the SQL send nothing to the engine -/
+theorem C04_lazy (h : Heap) (c : Call) (hc : ∀ r k v, c ≠ .action r k v) : (exec h c).engineCalls = h.engineCalls := by
   cases c with
-  | transform r s namer names hs => simp only [exec]; cases h.objs[r]? <;> rfl
-  | action r k => exact absurd rfl (hc r k)
+  | transform r s namer names hs => simp only [exec]; exact (execTransform_objs h r s namer names hs).2.2.2
+  | action r k v => exact absurd rfl (hc r k v)
   | getItem r n => rfl
+  | hint r m x => simp only [exec]; cases h.objs[r]? <;> rfl
+  | render r => simp only [exec]; cases h.objs[r]? <;> rfl
+  | alias r => simp only [exec]; cases h.objs[r]? <;> rfl
 
 /-- **lazy, against the source's call graph**: no public transformation can reach the engine
     (static over-approximation of `self.<method>` calls, regenerated from dataframe.py). -/
@@ -132,26 +201,198 @@ theorem C04_actions_static :
       ["approxQuantile", "collect", "corr", "count", "cov", "explain", "first", "head", "isEmpty", "printSchema",
        "schema", "show", "toArrow", "toPandas"] := by decide
 
-/-- repeating an action observes the same object: the answer is a function of an unchanged object -/
-theorem C04_action_repeatable (h : Heap) (r k1 k2 : Nat) :
-    ((exec (exec h (.action r k1)) (.action r k2)).objs[r]?).map observe = (h.objs[r]?).map observe := by
-  simp [exec]
+/-- repeating an action — however it reaches the engine: on the receiver itself, or through a derived `limit(n)` /
+    `select(…)` as `show`, `head`, `first`, `isEmpty` do — observes the same object -/
+theorem C04_action_repeatable (h : Heap) (r k1 k2 : Nat) (v1 v2 : Via) (hr : r < h.objs.length) :
+    ((exec (exec h (.action r k1 v1)) (.action r k2 v2)).objs[r]?).map observe = (h.objs[r]?).map observe := by
+  have := C04_history [.action r k1 v1, .action r k2 v2] h r hr
+  simpa [runCalls] using this
+
+/-! ### hints -/
+
+theorem partHints_joinHints (l : List Hint) : partHints (joinHints l) = [] := by
+  induction l with
+  | nil => rfl
+  | cons x xs ih =>
+    cases hx : x.join <;> simp [partHints, joinHints, hx] <;> simpa [partHints, joinHints] using ih
+
+/-- **a wrap freezes the pending partition hints with the CTE**: the DataFrame derived through `_convert_leaf_to_cte` has no
+    partition hint pending any more (so the hint is not rendered a second time on the outer block) … -/
+theorem C04_wrap_clears_partition_hints (o : Obj) : partHints (derivedHints o true).1 = [] := by
+  unfold derivedHints resolveHints
+  have h1 : resolveRemovesFrom = Target.onCopy := by decide
+  have h4 : resolveReturns = Target.onCopy := by decide
+  by_cases hp : o.pending.isEmpty
+  · have : o.pending = [] := by simpa using hp
+    simp [this, partHints]
+  · simp [hp, h1, h4, partHints_joinHints]
+
+/-- … and every partition hint that was pending is in a hint clause of the statement afterwards (it is not lost) -/
+theorem C04_wrap_keeps_partition_hints (o : Obj) (x : Hint) (hx : x ∈ partHints o.pending) :
+    ∃ c ∈ (derivedHints o true).2.2, x ∈ c := by
+  have hne : o.pending.isEmpty = false := by
+    cases hp : o.pending with
+    | nil => simp [hp, partHints] at hx
+    | cons a as => rfl
+  have h2 : resolveAttachesTo = Target.onCopy := by decide
+  have h4 : resolveReturns = Target.onCopy := by decide
+  refine ⟨o.attached ++ partHints o.pending, ?_, List.mem_append_right _ hx⟩
+  have hx' : (o.attached ++ partHints o.pending).isEmpty = false := by
+    cases hq : o.attached ++ partHints o.pending with
+    | nil => simp at hq; simp [hq.2] at hx
+    | cons a as => rfl
+  simp [derivedHints, resolveHints, hne, h2, h4, hx']
+
+/-- **a hinted DataFrame reports its hint**: the object `hint(name)` / `repartition(n)` / `coalesce(n)` returns renders the
+    partition hint in the hint clause of its open block -/
+theorem C04_hint_reported (h : Heap) (r : Nat) (m : HintMethod) (x : Hint) (o : Obj) (ho : h.objs[r]? = some o)
+    (hp : x.join = false) :
+    ∃ n, (exec h (.hint r m x)).objs.getLast? = some n ∧ { x with cell := h.cells.length } ∈ (resolveHints n).work.attached := by
+  have ha : hintAppendsTo = Target.onCopy := by decide
+  have h2 : resolveAttachesTo = Target.onCopy := by decide
+  have h4 : resolveReturns = Target.onCopy := by decide
+  refine ⟨_, by simp [exec, ho, ha]; rfl, ?_⟩
+  simp [resolveHints, h2, h4, partHints, List.filter_append, hp]
+
+/-- `limit` is never wrapped except on a freshly created DataFrame: whatever the receiver's last operation, the decorator
+    hands the receiver object itself to `limit`'s body — the frame property for `limit`, `show`, `head`, `first` therefore
+    rests on the body alone (it returns a copy built by a copying builder: `C04_hint_obligations`) -/
+theorem C04_limit_body_sees_receiver (d : DF) (h : d.last ≠ .init) : bodySeesReceiver tag_limit d = true := by
+  unfold bodySeesReceiver
+  cases hl : d.last <;> first | exact absurd hl h | (simp [tag_limit]; decide)
+
+/-! ### which DataFrame-owned state the source can write (static alias analysis of every member) -/
+
+/-- **the only state owned by a DataFrame passed in (receiver or argument) that any public member of BaseDataFrame can write
+    in place is a hint node shared through `copy()`** — no member writes the receiver's expression tree, display map,
+    pending-hint list, `last_op`, nor a caller's columns -/
+theorem C04_writes_only_hint_nodes :
+    ∀ e ∈ receiverWrites, ∀ w ∈ e.2, w = "self.hints" ∨ w = "other.hints" := by decide
+
+/-- the writes to shared hint nodes are in exactly two methods -/
+theorem C04_hint_node_write_sites :
+    hintNodeWriteSites = (if copySharesHintNodes then ["_resolve_pending_hints", "alias"] else []) := by decide
+
+/-- the helpers that do write their own receiver are the constructor and the display-name recorder (reached on copies only:
+    `C04_writes_only_hint_nodes`); the one member that can hand back its receiver is `transform(f)` (when `f` does) -/
+theorem C04_self_writing_helpers :
+    selfWritingHelpers = ["__init__", "_update_display_name_mapping"] ∧ returnsReceiver = ["transform"] := by decide
+
+/-- every member the model's alphabet stands for is in the analysed table -/
+theorem C04_writes_table_covers :
+    ∀ m ∈ ["select", "where", "withColumn", "withColumnRenamed", "drop", "distinct", "orderBy", "limit", "fillna", "replace",
+           "toDF", "dropna", "unpivot", "hint", "repartition", "coalesce", "alias", "sql", "collect", "count", "show", "head",
+           "first", "isEmpty", "toPandas", "toArrow", "schema", "columns"], (lookupWrites m).isSome = true := by decide
+
+/-! ### hint nodes shared between copies (the one write the analysis finds) -/
+
+theorem exec_cells_frame (h : Heap) (c : Call) (H : (copySharesHintNodes && aliasRewritesHintNode) = false ∨ c.isAlias = false) :
+    (exec h c).cells.take h.cells.length = h.cells := by
+  cases c with
+  | transform r s namer names hs => simp only [exec]; rw [(execTransform_objs h r s namer names hs).2.2.1]; simp
+  | action r k via =>
+    cases via with
+    | direct => simp only [exec]; cases h.objs[r]? <;> simp
+    | none => simp [exec]
+    | step s => simp only [exec]; rw [(execTransform_objs h r s .none [] []).2.2.1]; simp
+  | getItem r n => simp [exec]
+  | hint r m x => simp only [exec]; cases h.objs[r]? <;> simp
+  | render r => simp only [exec]; cases h.objs[r]? <;> simp
+  | alias r =>
+    cases H with
+    | inr hal => simp [Call.isAlias] at hal
+    | inl hsh =>
+      simp only [exec]
+      cases h.objs[r]? with
+      | none => simp
+      | some o => simp [hsh]
+
+theorem exec_cells_len (h : Heap) (c : Call) (H : (copySharesHintNodes && aliasRewritesHintNode) = false ∨ c.isAlias = false) :
+    h.cells.length ≤ (exec h c).cells.length := by
+  have := congrArg List.length (exec_cells_frame h c H)
+  simp only [List.length_take] at this
+  omega
+
+/-- **hint nodes, partial**: under `H_hint_nodes_private` no call history rewrites a hint node that existed before — together
+    with `C04_history_obj`: every pre-existing DataFrame's join hints still name what they named -/
+theorem C04_hint_nodes_partial (cs : List Call) : ∀ (h : Heap), H_hint_nodes_private cs →
+    ∀ i, i < h.cells.length → (runCalls h cs).cells[i]? = h.cells[i]? := by
+  induction cs with
+  | nil => intro h _ i _; rfl
+  | cons c cs ih =>
+    intro h H i hi
+    have Hc : (copySharesHintNodes && aliasRewritesHintNode) = false ∨ c.isAlias = false := by
+      cases H with
+      | inl a => exact .inl a
+      | inr a => exact .inr (a c (List.mem_cons_self ..))
+    have Hcs : H_hint_nodes_private cs := by
+      cases H with
+      | inl a => exact .inl a
+      | inr a => exact .inr (fun c' hc' => a c' (List.mem_cons_of_mem _ hc'))
+    simp only [runCalls, List.foldl_cons]
+    have hlen := exec_cells_len h c Hc
+    have := ih (exec h c) Hcs i (by omega)
+    simp only [runCalls] at this
+    rw [this]
+    have h2 : ((exec h c).cells.take h.cells.length)[i]? = h.cells[i]? := by rw [exec_cells_frame h c Hc]
+    rw [List.getElem?_take] at h2
+    simpa [hi] using h2
 
 /-! ### non-vacuity -/
 def exT : Table := { cols := ["x", "y"], rows := [[.int 1, .null], [.null, .int 3], [.int 2, .int 0]] }
 def exHeap : Heap :=
   { objs := [{ df := (DF.init exT).apply (.wher (.bin .gt (.col "x") (.lit (.int 0)))), display := [("x", "x"), ("y", "y")] }],
     handles := [{ qual := .branch 0, name := "x" }], engineCalls := 0 }
+/-- `df.where(x > 0).repartition(3)`, and a broadcast hint on top -/
+def exHinted : Heap := runCalls exHeap [.hint 0 .repartition { join := false, text := "REPARTITION(3)" }, .hint 1 .hint { join := true, text := "BROADCAST" }]
 
 example : (exHeap.objs[0]?).map (fun o => bodySeesReceiver (Step.select [("x", .col "x")]).tag o.df) = some true := by decide
-example : ((runCalls exHeap [.transform 0 (.select [("x", .col "x")]) .select [("x", "X")] [0], .action 0 1]).objs[0]?).map observe
+example : ((runCalls exHeap [.transform 0 (.select [("x", .col "x")]) .select [("x", "X")] [0], .action 0 1 .direct]).objs[0]?).map observe
     = (exHeap.objs[0]?).map observe := by decide
 example : (runCalls exHeap [.transform 0 (.select [("x", .col "x")]) .select [("x", "X")] [0]]).objs.length = 2 := by decide
+-- the hinted DataFrame names its hint, before and after being rendered, collected, shown and derived from (a wrapping select)
+example : (exHinted.objs[1]?).map hintView = some ["REPARTITION(3)"] := by decide
+example : ((runCalls exHinted [.render 1, .action 1 0 .direct, .action 1 0 (.step (.limit 2)),
+      .transform 1 (.select [("x", .col "x")]) .select [] [], .transform 1 (.wher (.col "x")) .none [] []]).objs[1]?).map hintView
+    = some ["REPARTITION(3)"] := by decide
+-- the derived, wrapped DataFrame carries the hint inside the CTE and not a second time on the outer block
+example : ((runCalls exHinted [.transform 1 (.select [("x", .col "x")]) .select [] [], .transform 3 (.select [("x", .col "x")]) .select [] []]).objs[4]?).map
+    (fun o => (hintView o, partHints o.pending)) = some (["REPARTITION(3)"], []) := by decide
+example : H_hint_nodes_private [.render 1, .transform 1 (.limit 2) .none [] [], .hint 1 .coalesce { join := false, text := "COALESCE(1)" }] := by decide
+example : (exHinted.objs[2]?).map (hintTargets exHinted.cells) = some [true] := by decide
 
-/-- full statement: additionally no aliasing inside sqlglot expression trees, `df.schema`/`sql()` text
-    and engine rows of the *real* objects — compared by the harness' deep snapshots, not proved. -/
+/-- **counterexample (shared hint nodes)**: `a = df.hint("broadcast"); a.alias("t")` re-points the join hint of `a` itself at the
+    alias's sequence id — the node is shared with the copy `alias` works on.  (On the real code `a.join(o, "k")` afterwards
+    renders `BROADCAST(<raw sequence id>)` instead of the left CTE's name.) -/
+theorem C04_cex_shared_hint_nodes :
+    (copySharesHintNodes && aliasRewritesHintNode) = true →
+    ((runCalls exHinted [.alias 2]).objs[2]?).map (hintTargets (runCalls exHinted [.alias 2]).cells) = some [false] ∧
+    (exHinted.objs[2]?).map (hintTargets exHinted.cells) = some [true] ∧ ¬ H_hint_nodes_private [.alias 2] := by decide
+
+/-- the counterexample is live for the source as it is (this `example` is the part that goes away with a repair) -/
+example : (copySharesHintNodes && aliasRewritesHintNode) = true ∨ hintNodeWriteSites = [] := by decide
+
+/-- full statement: every pre-existing DataFrame reports what it reported *and* its join hints name what they named;
+    additionally no aliasing inside sqlglot expression trees, `df.schema`/`sql()` text and engine rows of the *real*
+    objects — compared by the harness' deep snapshots, not proved. -/
 def C04_full_statement : Prop :=
   ∀ (h : Heap) (cs : List Call) (i : Nat), i < h.objs.length →
-    ((runCalls h cs).objs[i]?).map observe = (h.objs[i]?).map observe
+    ((runCalls h cs).objs[i]?).map observe = (h.objs[i]?).map observe ∧
+    ((runCalls h cs).objs[i]?).map (hintTargets (runCalls h cs).cells) = (h.objs[i]?).map (hintTargets h.cells)
+
+/-- the full statement under the scope hypothesis, for heaps whose hint nodes all exist (`cell < cells.length`) -/
+theorem C04_partial (h : Heap) (cs : List Call) (H : H_hint_nodes_private cs) (i : Nat) (hi : i < h.objs.length)
+    (hw : ∀ o, h.objs[i]? = some o → ∀ x ∈ joinHints o.pending, x.cell < h.cells.length) :
+    ((runCalls h cs).objs[i]?).map observe = (h.objs[i]?).map observe ∧
+    ((runCalls h cs).objs[i]?).map (hintTargets (runCalls h cs).cells) = (h.objs[i]?).map (hintTargets h.cells) := by
+  refine ⟨C04_history cs h i hi, ?_⟩
+  rw [C04_history_obj cs h i hi]
+  cases ho : h.objs[i]? with
+  | none => rfl
+  | some o =>
+    simp only [Option.map_some, Option.some.injEq, hintTargets]
+    apply List.map_congr_left
+    intro x hx
+    rw [C04_hint_nodes_partial cs h H x.cell (hw o ho x hx)]
 
 end Sqlframe
